@@ -105,9 +105,16 @@ fn run(ctx: &mut Ctx) {
         let dir = workdir(ctx, i);
         let run_number = if i % 5 == 4 { 11500 } else { u32::MAX };
         let nfiles = 1 + rng.usize(4);
-        let mut ts: u32 = rng.next() as u32;
+        // the 32-bit TRG clock starts anywhere, also exactly at 0 / 1 / its maximum (values a program might use as "unset")
+        let mut ts: u32 = match rng.below(8) {
+            0 => 0,
+            1 => u32::MAX,
+            2 => 1,
+            _ => rng.next() as u32,
+        };
         let big_steps = rng.bool();
         let mut serial = rng.below(1000) as u32;
+        let mut serial_from_zero = i % 7 == 0;
         let undec_mode = rng.below(6); // 0 none, 1 first, 2 middle, 3 last, 4 all, 5 random
         let mut files: Vec<FileSpec> = Vec::new();
         let mut t0 = 1_600_000_000 + rng.below(1000) as u32;
@@ -117,7 +124,12 @@ fn run(ctx: &mut Ctx) {
             let ne = if rng.chance(0.1) { 0 } else { rng.usize(if thorough { 61 } else { 25 }) };
             let mut events = Vec::new();
             for e in 0..ne {
-                serial += 1 + rng.below(3) as u32;
+                if serial_from_zero {
+                    serial = 0;
+                    serial_from_zero = false;
+                } else {
+                    serial += 1 + rng.below(3) as u32;
+                }
                 let kind = rng.below(10);
                 if kind == 0 {
                     events.push(Ev { id: 4, serial, banks: vec![("CBF1".into(), vec![0, 0, 0, 0xFF])] });
@@ -131,8 +143,12 @@ fn run(ctx: &mut Ctx) {
                 }
                 total_main += 1;
                 // steps: random; sometimes exactly 0 (two triggers in the same tick), 2^31 - 1, 2^31, 2^32 - 1
+                let first_main = total_main == 1;
                 ts = ts.wrapping_add(match rng.below(12) {
+                    _ if first_main => 0, // the first main event carries the starting value itself
                     0 => 0,
+                    2 => ts.wrapping_neg(), // lands exactly on 0
+                    3 if rng.bool() => ts.wrapping_neg().wrapping_sub(1), // lands exactly on u32::MAX
                     1 => *rng.pick(&[1u32, 0x7FFF_FFFF, 0x8000_0000, 0x8000_0001, 0xFFFF_FFFF]),
                     _ => {
                         if big_steps {
